@@ -1,18 +1,20 @@
 //! Eager stand-in for std's lazy FlatMap adapter (verification environment): CBMC does not get through FlattenCompat's
 //! front/back iterator state and the symbolic size hints it feeds into collect(). Same items in the same order for closures
-//! without side effects on what is iterated; the whole result is materialised first and handed out by a plain index iterator
-//! (not vec::IntoIter: collect()'s in-place specialisation on it is another thing CBMC does not get through).
-pub struct Eager<T> { items: Vec<Option<T>>, pos: usize }
+//! without side effects on what is iterated; the whole result is materialised first - in an inline array, not a Vec (a symbolic
+//! number of pushes makes every push a possible reallocation) - and handed out by a plain index iterator (not vec::IntoIter:
+//! collect()'s in-place specialisation on it is another thing CBMC does not get through). More than CAP items panic (a harness bound).
+pub const CAP: usize = 8;
+pub struct Eager<T> { items: [Option<T>; CAP], len: usize, pos: usize }
 impl<T> Iterator for Eager<T> {
     type Item = T;
-    fn next(&mut self) -> Option<T> { if self.pos < self.items.len() { let x = self.items[self.pos].take(); self.pos += 1; x } else { None } }
-    fn size_hint(&self) -> (usize, Option<usize>) { let n = self.items.len() - self.pos; (n, Some(n)) }
+    fn next(&mut self) -> Option<T> { if self.pos < self.len { let x = self.items[self.pos].take(); self.pos += 1; x } else { None } }
+    fn size_hint(&self) -> (usize, Option<usize>) { let n = self.len - self.pos; (n, Some(n)) }
 }
 pub trait FlatMapEager: Iterator + Sized {
     fn flat_map_eager<U: IntoIterator, F: FnMut(Self::Item) -> U>(self, mut f: F) -> Eager<U::Item> {
-        let mut items = Vec::new();
-        for x in self { for y in f(x) { items.push(Some(y)); } }
-        Eager { items, pos: 0 }
+        let mut e = Eager { items: [const { None }; CAP], len: 0, pos: 0 };
+        for x in self { for y in f(x) { assert!(e.len < CAP, "env/eager.rs: capacity exceeded"); e.items[e.len] = Some(y); e.len += 1; } }
+        e
     }
 }
 impl<T: Iterator> FlatMapEager for T {}
